@@ -571,6 +571,52 @@ lys_check_features(const struct lysp_module *pmod)
 }
 
 LY_ERR
+lys_features_backup(const struct lysp_module *pmod, ly_bool **backup)
+{
+    uint32_t i = 0, count = 0;
+    struct lysp_feature *f = NULL;
+
+    *backup = NULL;
+
+    while ((f = lysp_feature_next(f, pmod, &i))) {
+        ++count;
+    }
+    if (!count) {
+        return LY_SUCCESS;
+    }
+
+    *backup = malloc(count * sizeof **backup);
+    LY_CHECK_ERR_RET(!*backup, LOGMEM(pmod->mod->ctx), LY_EMEM);
+
+    i = 0;
+    count = 0;
+    while ((f = lysp_feature_next(f, pmod, &i))) {
+        (*backup)[count++] = (f->flags & LYS_FENABLED) ? 1 : 0;
+    }
+
+    return LY_SUCCESS;
+}
+
+void
+lys_features_restore(struct lysp_module *pmod, const ly_bool *backup)
+{
+    uint32_t i = 0, count = 0;
+    struct lysp_feature *f = NULL;
+
+    if (!backup) {
+        return;
+    }
+
+    while ((f = lysp_feature_next(f, pmod, &i))) {
+        if (backup[count++]) {
+            f->flags |= LYS_FENABLED;
+        } else {
+            f->flags &= ~LYS_FENABLED;
+        }
+    }
+}
+
+LY_ERR
 lys_set_features(struct lysp_module *pmod, const char **features)
 {
     uint32_t i = 0, j;
